@@ -398,6 +398,9 @@ func baseSamples(k string) []interface{} {
 			// the same with a lower-case word before the colon, which net/url
 			// writes back as it is
 			"re: hello", "food: pizza and beer", "covid-19: an update", "q:\"what?\"", "update: <b>back</b> online", "cw:death", "c++: the good parts", "mh: a|b",
+			// and with a double slash after it: the character no IRI can
+			// hold sits in the query or the host, which net/url writes back raw
+			"https://example.com/search?q=two words", "https://example.com/?tags={a|b}", "see://<b>", "http://example.com/a?x=\"y\"", "https://example.com/#one two",
 			// text in the neighbourhood of other kinds' lexical spaces
 			"Paris", "P", "-P", "PT", "P1Y2", "PT5", "P1S", "P1D and more", "PY", "P1DT", "2020-13-45", "truely", "12abc",
 			// near an instant, outside its lexical space: a one-digit hour, a
